@@ -523,10 +523,37 @@ func genC05(g *Gen, tier string, emit func(op string, args ...string)) {
 			L = g.Pick(11, 12, 17, 33, 40)
 			genuineAt = L - 1
 		}
+		// every KIND of bad datagram counts: exactly `budget` bad datagrams and then the genuine reply, one of the
+		// bad ones (each position in turn) of a kind chosen in rotation - among them the datagram of no octets at
+		// all, of one octet, of nineteen
+		special, specialAt := -1, -1
+		if c%16 == 3 {
+			maxErr = g.Pick(1, 1, 2, 3, 5)
+			skip = false
+			L = maxErr + 1
+			genuineAt = L - 1
+			special = (c / 16) % 6
+			specialAt = (c / 96) % maxErr
+		}
 		var hist [][]byte
 		for i := 0; i < L; i++ {
 			var d []byte
 			switch {
+			case i == specialAt:
+				switch special {
+				case 0:
+					d = []byte{}
+				case 1:
+					d = g.RandBytes(1)
+				case 2:
+					d = g.c05Datagram(0, i, wire, secret, reqCode, hist)[:19]
+				case 3:
+					d = g.c05Datagram(4, i, wire, secret, reqCode, hist)
+				case 4:
+					d = g.c05Datagram(8, i, wire, secret, reqCode, hist)
+				default:
+					d = g.c05Datagram(6, i, wire, secret, reqCode, hist)
+				}
 			case i == genuineAt && g.Chance(1, 12): // the genuine reply is the largest legal one (4096 octets)
 				d = g.c05Datagram(13, i, wire, secret, reqCode, hist)
 			case i == genuineAt:
